@@ -91,6 +91,13 @@ CHECKS["C03"] = (
     "5.C03",
 )
 
+CHECKS["C13"] = (
+    "CrossHair symbolic execution of the real ProcessingItem gate logic with stub conditions whose outcomes are symbolic booleans (all outcomes decided at once), plus selector families for built-in conditions and applied-so-far scenarios",
+    "Rule / detection-item / field-name gates with 0..2 conditions each, list and map form, default/and/or linking, negation, field-reference path; 22 condition expressions on all three levels; built-in conditions (include/exclude fields plain+regex on a symbolic field name, match_string, contains_wildcard, is_null, contains_field / contains_detection_item over 8 rule shapes, logsource, tag, rule_attribute); pipelines whose later items are gated on processing_item_applied / processing_state of earlier items (rule, detection item and field level), and reset between rules.",
+    TB,
+    "5.C13",
+)
+
 NOT_APPLICABLE = {}
 
 ALL = [f"C{n:02d}" for n in range(1, 21)]
